@@ -375,6 +375,10 @@ def gen_program(r, hist, long=False):
     return prog
 
 
+# the history of seeded change seed11_C07 (Props.C07.page_size_does_not_stop): page sizes 2, 3, 1, 2 (+ an empty one) listed with page_size = 3
+SHORT_PAGES_HISTORY = [{"ids": [1, 2], "token": "a"}, {"ids": [3, 4, 5], "token": "b"}, {"ids": [6], "token": "c"}, {"ids": [], "token": "d"},
+                       {"ids": [7, 8], "token": ""}]
+
 # the program of the non-vacuity example of Props/C07.lean (two interleaved iterators + a `pages` generator)
 LEAN_EXAMPLE_HISTORY = [{"ids": [1, 2], "token": "a"}, {"ids": [], "token": "b"}, {"ids": [3], "token": "c"}, {"ids": [4], "token": ""},
                         {"ids": [99], "token": ""}]
@@ -384,6 +388,12 @@ LEAN_EXAMPLE_PROGRAM = [["iter"], ["next", 0], ["attr"], ["iter"], ["next", 1], 
 
 RETRY = {"exceptions": ["ServiceUnavailable"], "initial": 0.01, "maximum": 0.02, "multiplier": 1.0, "deadline": 30.0}
 METADATA = [["x-verif", "1"], ["x-verif-b", "b1"], ["x-verif-b", "b2"]]
+
+
+def settable_size(s):
+    """name of the request's size field when the caller can set it to a plain integer (the wrapper-typed legacy fields are left unset)"""
+    x = s.get("size")
+    return x[0] if (x and x[1] in INT_KINDS) else None
 
 
 def live_pages(hist):
@@ -520,9 +530,18 @@ def t3_service(ctx, r, api, codec, root, svc, svc_full, shapes, model, wmodel, p
                     reqd["page_token"] = fixed["token0"]
             for tp in token_pattern(hist, reqd.get("page_token", "")):
                 ctx.count("token_pattern", tp)
+            # the caller's page size (1..4, explicit 0, or unset) is chosen INDEPENDENTLY of the sizes of the pages the server sends
+            # (0..3): AIP-158 allows short and empty pages with a token; to the pager it is just another request field
+            sz_name = settable_size(s)
+            sz = fixed["size"] if (fixed and "size" in fixed) else (None if fixed else r.pick([None, None, 0, 1, 2, 3, 4]))
+            if sz_name and sz is not None:
+                reqd[sz_name] = sz
+            live0 = live_pages(hist)
+            ctx.count("page_size", "unset / not an integer field" if (not sz_name or sz is None) else "0" if sz == 0 else
+                      "set, some non-final page is shorter" if any(len(p["ids"]) < sz for p in live0[:-1]) else "set, no non-final page is shorter")
             path = f"/{svc_full}/{s['name']}"
             modes = ["request-instance", "request-dict"]
-            if s.get("sig") and "page_token" not in reqd:
+            if s.get("sig") and "page_token" not in reqd and not (sz_name and sz_name in reqd):
                 modes.append("kwargs")
             if not reqd:
                 modes.append("request-none")
@@ -647,7 +666,7 @@ def t3_service(ctx, r, api, codec, root, svc, svc_full, shapes, model, wmodel, p
                 if rec.get("behaviour") != "fail":
                     toks.append(d.get("page_token", ""))
                 rest = {kk: vv for kk, vv in d.items() if kk != "page_token"}
-                want_rest = {kk: vv for kk, vv in reqd.items() if kk != "page_token"}
+                want_rest = {kk: vv for kk, vv in codec.normal(m.input.ident.proto, reqd).items() if kk != "page_token"}
                 if rest != want_rest:
                     ctx.fail("request-fields-changed", f"{m.name}: request {k} carries {rest}, caller gave {want_rest}", payload)
                 for key_ in ("x-verif", "x-verif-b"):
@@ -722,7 +741,7 @@ def t3_service(ctx, r, api, codec, root, svc, svc_full, shapes, model, wmodel, p
                     q = {kk: vv[-1] for kk, vv in urllib.parse.parse_qs(rec["query"], keep_blank_values=True).items()}
                     toks.append(q.get("pageToken", q.get("page_token", "")))
                     rest_fields = {kk: vv for kk, vv in q.items() if kk not in ("pageToken", "page_token", "$alt")}
-                    want_rest = {apigen.json_name(kk): vv for kk, vv in reqd.items() if kk != "page_token"}
+                    want_rest = {apigen.json_name(kk): str(vv) for kk, vv in codec.normal(m.input.ident.proto, reqd).items() if kk != "page_token"}
                     if rest_fields != want_rest:
                         ctx.fail("request-fields-changed", f"{m.name} (rest): request {k} carries {rest_fields}, caller gave {want_rest}", payload)
                     if dict((a.lower(), b) for a, b in rec["headers"]).get("x-verif") != "1":
@@ -813,7 +832,7 @@ def check_objects(ctx, codec, svc, obj_calls, stream_calls, obj_out, shapes):
             for k, rec in enumerate(srv):
                 d = codec.decode(m.input.ident.proto, rec["requests"][0]) if rec["requests"] else {}
                 toks.append(d.get("page_token", ""))
-                if {kk: vv for kk, vv in d.items() if kk != "page_token"} != {kk: vv for kk, vv in reqd.items() if kk != "page_token"}:
+                if {kk: vv for kk, vv in d.items() if kk != "page_token"} != {kk: vv for kk, vv in codec.normal(m.input.ident.proto, reqd).items() if kk != "page_token"}:
                     ctx.fail("request-fields-changed", f"{m.name}: request {k} carries {d}, caller gave {reqd}", payload)
                 for key_ in ("x-verif", "x-verif-b"):
                     if [b for a, b in rec["metadata"] if a == key_] != [b for a, b in METADATA if a == key_]:
@@ -967,7 +986,7 @@ def exhaustive_programs(ctx, n):
         return
     root = genrun.materialise(res)
     try:
-        reqd = {"parent": "shelves/s1", "filter": "a=b"}
+        reqd = {"parent": "shelves/s1", "filter": "a=b", "page_size": 2}      # the non-final pages (1 and 0 items) are shorter than that
         script = {f"/{PKG}.Library/{s['name']}": [{"replies": [codec.encode_b64(m.output.ident.proto, page_json(s, p, "results0", "message"))]} for p in hist]}
         obj_calls = []
         for prog in enum_programs(n):
@@ -996,7 +1015,7 @@ def run(ctx):
                 "all integer kinds, 1..3 repeated fields of message/nested/scalar/bytes/map/enum/other-file kinds, declaration order != "
                 "number order, response in another file; request / response / items / map values declared in a DEPENDENCY package (plain protobuf classes); proto sub-package layouts: services in a sub-package with messages in the API package, "
                 "one service in each, messages/items in a sub-package with items from a third file) x scripted histories (1..5 pages, sizes 0..3, extra pages after the empty token; token values from a small pool with repetition: equal consecutive tokens, a token equal to the caller's page_token, tokens coming back) "
-                "x {sync, asyncio, REST} x call modes (instance, dict, flattened, none) x programs (second listing with the same objects; "
+                "x {sync, asyncio, REST} x call modes (instance, dict, flattened, none) x the caller's page_size (unset, 0, 1..4, independent of the sizes of the pages served) x programs (second listing with the same objects; "
                 "generator programs on one pager: several `pages`/item generators advanced in any interleaving, attribute reads, "
                 "re-iteration; EVERY well-formed program of 4 (thorough: 7) ops on a fixed history; a transient error on a pager-issued fetch under the caller's retry); distinct by (shape), "
                 "(method, history, client kind) and (program, history, client kind); non-trivial = every generated shape / history / program")
@@ -1008,7 +1027,8 @@ def run(ctx):
               gen_shape(r, 6, force="page_size_wrapper"),
               stream_shape(r, 7, "ss"), stream_shape(r, 8, "cs"), stream_shape(r, 9, "bidi")]
     run_api(ctx, r, corpus, "corpus", programs=[{"history": LEAN_EXAMPLE_HISTORY, "program": LEAN_EXAMPLE_PROGRAM},
-                                                 {"history": REPEATED_TOKEN_HISTORY}, {"history": RESUME_ECHO_HISTORY, "token0": "cur-2"}])
+                                                 {"history": REPEATED_TOKEN_HISTORY}, {"history": RESUME_ECHO_HISTORY, "token0": "cur-2"},
+                                                 {"history": SHORT_PAGES_HISTORY, "size": 3}])
     probe_extended_operation(ctx)
     exhaustive_programs(ctx, ctx.n(4, 7))
     with open(os.path.join(CORPUS, "map_value_other_file.json")) as fh:      # regression input (fixed 1f977de): map pager whose value type lives in another module; must HOLD
